@@ -26,6 +26,7 @@ def run(ctx):
     # 3. chunkings and malformed blocks (direct oracle)
     impl.chunked(ctx)
     impl.malformed(ctx)
+    impl.coalesced(ctx)
     if not ok:
         found = len(ctx.failures) > failures_before
         ctx.fail("proof-broken", "the Coq development for C13 no longer builds against the regenerated "
